@@ -33,6 +33,7 @@ func symxReset(m map[string]uint64) {
 	symxEvents = nil
 	symxSeen = map[string]bool{}
 	symxFresh = 0
+	symxNoAsserts = false
 }
 
 func symxName(name string) string {
@@ -74,7 +75,14 @@ func symxAssume(c bool) {
 	}
 }
 
+var symxNoAsserts bool
+
+func symxAssertionsOff() { symxNoAsserts = true }
+
 func symxAssert(c bool, label string) {
+	if symxNoAsserts {
+		return
+	}
 	symxEvents = append(symxEvents, "assert:"+label)
 	if !c {
 		symxEvents = append(symxEvents, "FAIL:"+label)
